@@ -16,6 +16,7 @@ Each primitive was compared with CPython (/venv/bin/python) on every value kind 
 import HtmlVerif.Py.Prim
 import HtmlVerif.Model.TextDoc
 import HtmlVerif.Model.Attrs
+import HtmlVerif.Py.PrimC08
 
 namespace HtmlVerif.Py
 open HtmlVerif
@@ -246,5 +247,50 @@ def pyAsHtmlTagsC13 (d lp iv : PVal) : PyM PVal :=
       | Option.none => throw .unsupported
     | _ => throw .unsupported
   | _ => throw .attributeError
+
+
+/-! ### `json.dumps` -/
+
+mutual
+  /-- the JSON value `json.dumps` writes for a Python value of the model's fragment: None, `bool`, `str`, list / tuple
+      (arrays), dict with `str` keys (objects, in insertion order).  Numbers are valid for CPython but outside the
+      fragment (`unsupported`); an `HTML` (a `UserString`, not a `str`) is "not JSON serializable": TypeError; instances of
+      other classes are not covered.  The first offending item, in source order, decides. -/
+  def jsonOfPValC13 : PVal → PyM Json
+    | .none => pure .null
+    | .bool b => pure (.bool b)
+    | .str s => pure (.str s)
+    | .list xs => do pure (.arr (← jsonOfListC13 xs))
+    | .tuple xs => do pure (.arr (← jsonOfListC13 xs))
+    | .dict kvs => do pure (.obj (← jsonOfKvsC13 kvs))
+    | .html _ => throw .typeError
+    | .int _ => throw .unsupported
+    | .float _ => throw .unsupported
+    | .obj _ _ => throw .unsupported
+  def jsonOfListC13 : List PVal → PyM JList
+    | [] => pure .nil
+    | x :: r => do
+      let j ← jsonOfPValC13 x
+      let t ← jsonOfListC13 r
+      pure (.cons j t)
+  def jsonOfKvsC13 : List (Str × PVal) → PyM JMems
+    | [] => pure .nil
+    | (k, v) :: r => do
+      let j ← jsonOfPValC13 v
+      let t ← jsonOfKvsC13 r
+      pure (.cons k j t)
+end
+
+/-- the `indent=` argument: None, or a non-negative int (a negative int, a `bool` or a `str` indent is not covered) -/
+def jsonIndentC13 : PVal → PyM (Option Nat)
+  | .none => pure Option.none
+  | .int n => if n ≥ 0 then pure (some n.toNat) else throw .unsupported
+  | _ => throw .unsupported
+
+/-- `json.dumps(x, indent=i)` (default separators, `ensure_ascii=True`): the model's `jsonPrint` -/
+def pyJsonDumpsC13 (x ind : PVal) : PyM PVal := do
+  let j ← jsonOfPValC13 x
+  let i ← jsonIndentC13 ind
+  pure (.str (jsonPrint i j))
 
 end HtmlVerif.Py
